@@ -27,6 +27,29 @@ fn main() {
         std::process::exit(2);
     }
     install_quiet_panic_hook();
+    if args[1] == "schedtime" {
+        use crate::common::tiered::Strat;
+        use crate::props::c08;
+        let root = std::path::PathBuf::from(format!("/dev/shm/kvh.schedtime.{}", std::process::id()));
+        let cfg = c08::cfg_for(Strat::LearnedTrained, 0);
+        for i in 0..5 {
+            let t0 = std::time::Instant::now();
+            let d = root.join(format!("d{}", i));
+            std::fs::create_dir_all(&d).unwrap();
+            let t = c08::build(&cfg, &d).map_err(|e| e.msg).unwrap();
+            let t1 = t0.elapsed();
+            let e1 = std::sync::Arc::clone(&t.engine);
+            let e2 = std::sync::Arc::clone(&t.engine);
+            let progs: Vec<crate::common::sched::Program> = vec![Box::new(move |_| c08::apply(&e1, c08::OpK::InsertNew, 0, 0)), Box::new(move |_| c08::apply(&e2, c08::OpK::Delete, 1, 0))];
+            let out = crate::common::sched::run(progs, &[(3, 1)]);
+            let t2 = t0.elapsed();
+            drop(t);
+            let t3 = t0.elapsed();
+            println!("build {:?} run {:?} (decisions {}) drop {:?}", t1, t2 - t1, out.decisions, t3 - t2);
+        }
+        let _ = std::fs::remove_dir_all(&root);
+        return;
+    }
     if args[1] == "srvtest" {
         srvtest();
         return;
